@@ -33,8 +33,10 @@ def build(u):
                  "CustomRequest arm; self is the env mirror (rpcmethods / setconfig_callback are the real field names), request: &serde_json::Value is declared in the unit")
     u.raw("}\n")
     u.slice(m, f, "cln_plugin::PluginDriver::dispatch_one#request_spawn",
-            r"^let plugin = plugin\.clone\(\);", r"^tokio::spawn\(async move \{(\s|//[^\n]*\n)*match call\.await",
-            "fn dispatch_one__request_spawn<F: Fn(Plugin, Value) -> anyhow::Result<Value>>(callback: &F, plugin: &Plugin, params: Value, id: Value, Tracked(d): Tracked<&mut Disp>)",
-            note="slice dispatch_one#request_spawn: `let plugin = plugin.clone(); let call = callback(..); tokio::spawn(async move {..});` -- "
+            r"after:^let params = request[\s\S]*\.clone\(\);", r"^tokio::spawn\(async move \{(\s|//[^\n]*\n)*(let \w+ = )?match call\.await",
+            "fn dispatch_one__request_spawn<F: Fn(Plugin, Value) -> anyhow::Result<Value>>(callback: &F, plugin: &Plugin, params: Value, id: Value, Tracked(d): Tracked<&mut Disp>) -> (r: anyhow::Result<()>)",
+            tail="Ok(())",
+            note="slice dispatch_one#request_spawn: everything after the `let params = ..clone();` statement up to and including `tokio::spawn(async move {..});` "
+                 "(on the pinned tree: `let plugin = plugin.clone(); let call = callback(..); tokio::spawn(..)`) -- "
                  "the async block is the reply path (slice dispatch_one#reply of unit driver); callback, plugin, params, id are declared in the unit")
     u.raw("} // verus!\nfn main() {}\n")
